@@ -46,7 +46,7 @@ theorem one_done_one_verdict (fuel : Nat) (ps : List Policy) (r : Run) (res : PR
 /-- **per handled failure, the retry policy's events**: `OnFailure` always; `OnAbort` iff the failure matches an abort
 condition; `OnRetriesExceeded` iff the budget is exhausted and it is not an abort; never both -/
 theorem retry_onFailure_events (pos : Nat) (m : Int) (rl : Bool) (a : List Cond) (res1 : PR) (r : Run) :
-    let exc : Bool := decide (m ≠ -1 ∧ ((getFailed r pos + 1 : Nat) : Int) > m)
+    let exc : Bool := decide (m ≠ -1 ∧ ((getFailed r pos + 1 : Nat) : Int) > m) || durExceeded pos r
     let ab := isAbortable a res1.outcome
     (retryOnFailure pos m rl a res1 r).2.log =
       r.log ++ [⟨"rp.onFailure", pos, r.attempts, r.execs, none⟩]
@@ -56,7 +56,7 @@ theorem retry_onFailure_events (pos : Nat) (m : Int) (rl : Bool) (a : List Cond)
   simp only
   have hg : getFailed (r.emit "rp.onFailure" pos) pos = getFailed r pos := rfl
   rw [hg]
-  generalize decide (m ≠ -1 ∧ ((getFailed r pos + 1 : Nat) : Int) > m) = exc
+  generalize (decide (m ≠ -1 ∧ ((getFailed r pos + 1 : Nat) : Int) > m) || durExceeded pos r) = exc
   generalize isAbortable a res1.outcome = ab
   cases exc <;> cases ab <;> cases rl <;> simp [Run.emit, setFailed]
 
